@@ -63,6 +63,9 @@ def strategy(tier):
 
 # ----------------------------------------------------------------------------------------------
 
+_SRC = {}
+
+
 def check_grouped(res, src, dims, labels, layout, what, sig, attrs=True):
     """layout: list of result dimensions, each a list of source dim names (len 1 = plain) or a new name ('+n').
     Checks dims, member axes, tuple labels and every value."""
@@ -71,6 +74,8 @@ def check_grouped(res, src, dims, labels, layout, what, sig, attrs=True):
     names = [",".join(g) for g in layout]
     check(isinstance(res, da.DimArray), "not-a-dimarray", {"what": what, "got": core.brief(res)}, sig)
     check(list(res.dims) == names, "dims", {"what": what, "got": list(res.dims), "expected": names}, sig)
+    if _SRC.get("dtype") is not None:      # grouping and ungrouping rearrange the data, they do not convert them
+        check(res.values.dtype == _SRC["dtype"], "value-dtype", {"what": what, "got": str(res.values.dtype), "source": str(_SRC["dtype"])}, sig)
     combos = []
     for i, g in enumerate(layout):
         ax = res.axes[i]
@@ -124,6 +129,7 @@ def run_case(case):
         if core.label_kind(labels[i]) in "if" and i % 2 == 0:
             ax.tol = 1e-9
     snap = core.snapshot(a)
+    _SRC["dtype"] = a.values.dtype
 
     def members_restored(back, what):
         for i, d in enumerate(dims):
